@@ -1,17 +1,29 @@
 ------------------------------- MODULE GlobGen -------------------------------
-(* Trees x patterns for C16: every tree over three top-level names with six *)
-(* shapes each, every pattern of one or two components from the component   *)
-(* pool, with and without trailing slash.                                   *)
+(* Trees x patterns for C16: every tree over five top-level names (plain,   *)
+(* two characters, dot file, a pattern character, a trailing backslash) with *)
+(* six shapes each (three for the last), every pattern of one or two         *)
+(* components from the component pool, with and without trailing slash.      *)
+(* Two levels (the first two names in Init, the rest in Next) so that TLC's  *)
+(* workers share the computation of the expected sets.                       *)
 EXTENDS Glob, Json
 
-TopNames == << <<"a">>, <<"a", "b">>, <<".", "h">>, <<"b", "*">> >>
+TopNames == << <<"a">>, <<"a", "b">>, <<".", "h">>, <<"b", "*">>, <<"a", "\\">> >>
 Shapes == {"absent", "file", "dir", "dir+a", "dir+.c", "link"}
+ShapesOf(i) == IF i = 5 THEN {"absent", "file", "dir+a"} ELSE Shapes
+Trees == {t \in [1..Len(TopNames) -> Shapes] : \A i \in 1..Len(TopNames) : t[i] \in ShapesOf(i)}
 Comps == << <<"a">>, <<"*">>, <<"?">>, <<"a", "*">>, <<".", "*">>, <<"[", "a", "b", "]", "*">>, <<"\\", "a">>, <<"a", "?">>,
-            <<"b", "\\", "*">>, <<"*", "b">>, <<"?", "?">> >>
+            <<"b", "\\", "*">>, <<"*", "b">>, <<"?", "?">>, <<"a", "\\", "\\">> >>
 
-VARIABLE tree      \* [1..Len(TopNames) -> Shapes]
-Init == tree \in [1..Len(TopNames) -> Shapes]
-Next == FALSE /\ tree' = tree
+CONSTANT Sel               \* the indices of the trees to emit (the quick tier samples)
+ShapeSeq == <<"absent", "file", "dir", "dir+a", "dir+.c", "link">>
+ShapeIdx(sh) == CHOOSE i \in 1..6 : ShapeSeq[i] = sh
+RECURSIVE IndexFrom(_, _)
+IndexFrom(t, i) == IF i > Len(TopNames) THEN 0 ELSE (ShapeIdx(t[i]) - 1) + 6 * IndexFrom(t, i + 1)
+TreeIndex(t) == IndexFrom(t, 1)
+
+VARIABLES tree, done      \* [1..Len(TopNames) -> Shapes]; the tree is complete
+Init == done = FALSE /\ tree \in {t \in Trees : \A i \in 3..Len(TopNames) : t[i] = "absent"}
+Next == ~done /\ done' = TRUE /\ tree' \in {t \in Trees : t[1] = tree[1] /\ t[2] = tree[2] /\ TreeIndex(t) \in Sel}
 
 FS == LET ents == UNION {
                CASE tree[i] = "absent" -> {}
@@ -23,10 +35,15 @@ FS == LET ents == UNION {
                : i \in 1..Len(TopNames)}
       IN  [p \in {e[1] : e \in ents} |-> (CHOOSE e \in ents : e[1] = p)[2]]
 
-Pats == {[comps |-> <<Comps[i]>>, slash |-> s] : i \in 1..Len(Comps), s \in BOOLEAN}
-        \cup {[comps |-> <<Comps[i], Comps[j]>>, slash |-> s] : i \in 1..Len(Comps), j \in 1..Len(Comps), s \in BOOLEAN}
+Pats == {[comps |-> <<Comps[i]>>, slash |-> s, abs |-> FALSE, rep |-> 1] : i \in 1..Len(Comps), s \in BOOLEAN}
+        \cup {[comps |-> <<Comps[i], Comps[j]>>, slash |-> s, abs |-> FALSE, rep |-> 1] : i \in 1..Len(Comps), j \in 1..Len(Comps), s \in BOOLEAN}
+        \* absolute patterns and repeated slashes over the first six components
+        \cup {[comps |-> <<Comps[i], Comps[j]>>, slash |-> s, abs |-> a, rep |-> r] : i \in 1..6, j \in 1..6, s \in BOOLEAN,
+                                                                                   a \in BOOLEAN, r \in {1, 2}}
+        \cup {[comps |-> <<Comps[i]>>, slash |-> s, abs |-> TRUE, rep |-> r] : i \in 1..Len(Comps), s \in BOOLEAN, r \in {1, 2}}
 
-Emit == PrintT(<<"CASE", ToJson([tree |-> tree,
+Emit == ~done \/ PrintT(<<"CASE", ToJson([tree |-> tree, index |-> TreeIndex(tree),
                                  entries |-> SetToSeq({[path |-> p, kind |-> FS[p]] : p \in DOMAIN FS}),
-                                 pats |-> SetToSeq({[comps |-> pt.comps, slash |-> pt.slash, exp |-> SetToSeq(Expected(FS, pt))] : pt \in Pats})])>>)
+                                 pats |-> SetToSeq({[comps |-> pt.comps, slash |-> pt.slash, abs |-> pt.abs, rep |-> pt.rep, exp |-> SetToSeq(Expected(FS, pt)),
+                                                     expstr |-> SetToSeq(ExpectedStrings(FS, pt))] : pt \in Pats})])>>)
 =============================================================================
